@@ -279,6 +279,7 @@ type dw struct {
 	fallbacks    map[rune]string
 	opPen        *vt.Pen
 	inCall       string
+	allowAppIO   bool
 }
 
 func charsetOf(locale string) encoding.Encoding {
